@@ -197,3 +197,6 @@ def run(chk, replay):
         if v:
             chk.violation(sigs, v, {"sc": sc, "cfgseed": cfgseed, "axes": axes, "serial": serial, "fields": fields, "sigs": sigs,
                                     "default_pos": dflt}, klass=klass_of(sc))
+    # the command line layer (spec/Cli.tla): every subset of the tool's options typed to the real main(), API intercepted
+    from harness import cli
+    cli.phase(chk, "mandoline")
